@@ -31,8 +31,8 @@ UNPROVED = []
 C04_KINDS = {'notified-not-message', 'segmentation-dependent'}
 
 
-def gen_exchanges(rng):
-    exs = c08.gen_sequence(rng)
+def gen_exchanges(rng, opts=(True, False)):
+    exs = c08.gen_sequence(rng, opts)
     for k, e in enumerate(exs):
         if e['method'] == 'POST' and rng.random() < 0.7:
             e['req_body'] = bytes(rng.choice(b'abc=&123') for _ in range(rng.choice([0, 1, 7, 5000])))
@@ -46,14 +46,17 @@ def stream_warc(ctx, seqs):
     tmp = tempfile.mkdtemp(prefix='c04-')
     lines, metas = [], []
     try:
-        for i, exs in enumerate(seqs):
+        for i, item in enumerate(seqs):
+            exs, opts = item if isinstance(item, tuple) else (item, (True, False))
+            opts = tuple(opts)
             comp = i % 2 == 1
             prefix = os.path.join(tmp, 'w%d' % i)
             params = WARCRecorderParams(compress=comp, log=False, temp_dir=tmp, software_string='verif',
                                         digests=i % 3 != 0)
-            results, conns = H.real_session_sequence(exs, recorder_params={'filename': prefix, 'params': params})
+            results, conns = H.real_session_sequence(exs, recorder_params={'filename': prefix, 'params': params},
+                                                     keep_alive=opts[0], ignore_length=opts[1])
             path = prefix + ('.warc.gz' if comp else '.warc')
-            case = {'stream': 'warc', 'compress': comp,
+            case = {'stream': 'warc', 'compress': comp, 'opts': list(opts),
                     'exchanges': [{'segs': e['segs'], 'eof': e['eof'], 'method': e['method'], 'version': e['version'],
                                    'path': e['path'], 'msg': e['msg'].case(), 'surplus': e['surplus'],
                                    'req_body': e.get('req_body'), 'req_fields': e.get('req_fields', [])} for e in exs]}
@@ -66,7 +69,7 @@ def stream_warc(ctx, seqs):
                 if os.path.exists(path):
                     os.remove(path)
             recs = [(f, b) for f, b in records if f.get('warc-type') != 'warcinfo']
-            check_warc(ctx, case, exs, results, recs)
+            check_warc(ctx, case, exs, results, recs, opts)
             toks, rl = [], []
             for e, r in zip(exs, results):
                 x = r['x']
@@ -80,11 +83,13 @@ def stream_warc(ctx, seqs):
                 if e.get('req_body') is not None:
                     fl.append(('Content-Length', str(len(e['req_body']))))
                 fl.append(('Host', 'h'))
+                if opts[1]:
+                    fl.append(('Connection', 'close'))     # write_request, ignore_length
                 flat = []
                 for n, v in fl:
                     flat += [enc(n), enc(v)]
                 rl.append('http request %s %s %s %s' % (enc(e['method']), enc(e['path']), enc(e['version']), '/'.join(flat)))
-            lines.append('http session T ' + ' '.join(toks))
+            lines.append('http session %s %s ' % ('T' if opts[0] else 'F', 'T' if opts[1] else 'F') + ' '.join(toks))
             lines.extend(rl)
             metas.append((case, exs, results, recs, len(rl)))
         replies = ctx.model.ask(lines)
@@ -119,7 +124,7 @@ def H_dec(tok):
     return [] if tok == '-' else [int(t, 16) for t in tok.split('.')]
 
 
-def check_warc(ctx, case, exs, results, recs):
+def check_warc(ctx, case, exs, results, recs, opts=(True, False)):
     """Direct oracle: blocks in the file vs the bytes on the fake wire."""
     i = 0
     for k, (e, r) in enumerate(zip(exs, results)):
@@ -149,6 +154,8 @@ def check_warc(ctx, case, exs, results, recs):
         pf, pb = recs[i]
         i += 1
         want = e['msg'].message
+        if H.relaxed_by_options(e['msg'], opts):
+            want += e['surplus']        # ignore_length: the response extends to the peer's close
         if pb != want:
             d = next((j for j, (a, b) in enumerate(zip(pb, want)) if a != b), min(len(pb), len(want)))
             ctx.fail('response-block-not-wire', 'response_data', case,
@@ -174,7 +181,8 @@ def replay(ctx, case, kind=None, where=None):
                 e.pop('req_body', None)
             e['req_fields'] = [tuple(p) for p in e.get('req_fields', [])]
             exs.append(e)
-        stream_warc(ctx, [exs, exs])
+        o = tuple(case.get('opts', (True, False)))
+        stream_warc(ctx, [(exs, o), (exs, o)])
     else:
         with_filter(ctx, lambda: c08._replay(ctx, case, kind, where))
 
@@ -213,9 +221,13 @@ def run(ctx):
         c08.stream_decode(ctx, batch, thorough, cache)
     with_filter(ctx, decode_part)
     wrng = ctx.subrng('warc')
-    stream_warc(ctx, [gen_exchanges(wrng) for _ in range(ctx.scale(250, 3000))])
+    seqs = []
+    for i in range(ctx.scale(250, 3000)):
+        opts = H.OPTS[1 + (i // 4) % 3] if i % 4 >= 2 else (True, False)   # half default, half spread over the other three
+        seqs.append((gen_exchanges(wrng, opts), opts))
+    stream_warc(ctx, seqs)
 
 
 def search(ctx):
     rng = ctx.subrng('search')
-    stream_warc(ctx, [gen_exchanges(rng) for _ in range(ctx.scale(15, 30))])
+    stream_warc(ctx, [(gen_exchanges(rng, H.OPTS[i % 4]), H.OPTS[i % 4]) for i in range(ctx.scale(15, 30))])
